@@ -39,8 +39,10 @@ import (
 //@     (l.root.next != nil ==> l.root.next == ite(len(l.elems) > 0, l.elems[0], &l.root) &&
 //@                             l.root.prev == ite(len(l.elems) > 0, l.elems[len(l.elems)-1], &l.root)) &&
 //@     (forall i int :: 0 <= i && i < len(l.elems) ==>
-//@         l.elems[i] != nil && toplevel(l.elems[i]) && l.elems[i].owner == l && l.elems[i].idx == l.base + i &&
-//@         l.elems[i].next == ite(i+1 < len(l.elems), l.elems[i+1], &l.root) &&
+//@         l.elems[i] != nil && toplevel(l.elems[i]) && l.elems[i].owner == l && l.elems[i].idx == l.base + i) &&
+//@     (forall i int {l.elems[i].next} :: 0 <= i && i < len(l.elems) ==>
+//@         l.elems[i].next == ite(i+1 < len(l.elems), l.elems[i+1], &l.root)) &&
+//@     (forall i int {l.elems[i].prev} :: 0 <= i && i < len(l.elems) ==>
 //@         l.elems[i].prev == ite(i > 0, l.elems[i-1], &l.root))
 // listConv: every node that claims to be in the list is in elems at its index (needed only where a node
 // is removed from the middle, i.e. for the lists of the all-store; kept apart from listInv because the
